@@ -323,7 +323,9 @@ func (w *world) restartAt(k int, rng *rand.Rand, mem *view) {
 				cl{"restart-forgets-consumed-traffic", "consumed-traffic total (vs. running service)", v.consumed[i], mem.consumed[i]},
 				cl{"restart-forgets-served-traffic", "served-traffic total (vs. running service)", v.served[i], mem.served[i]},
 				cl{"restart-forgets-sent-cheque", "last sent cheque (vs. running service)", v.lastSent[i], mem.lastSent[i]},
-				cl{"restart-forgets-received-cheque", "last received cheque (vs. running service)", v.lastRecv[i], mem.lastRecv[i]})
+				cl{"restart-forgets-received-cheque", "last received cheque (vs. running service)", v.lastRecv[i], mem.lastRecv[i]},
+				cl{"restart-resets-sent-settlements", "last cheque amount sent as accounted in memory (vs. running service)", v.sentSettle[i], mem.sentSettle[i]},
+				cl{"restart-resets-received-settlements", "last cheque amount received as accounted in memory (vs. running service)", v.recvSettle[i], mem.recvSettle[i]})
 		}
 		for _, x := range cls {
 			w.run.Stat("restored_values_compared", 1)
@@ -358,8 +360,10 @@ func (w *world) restartAt(k int, rng *rand.Rand, mem *view) {
 		}
 	}
 	if first == nil || first.Payout == nil {
-		// not part of the statement: the harness expects a cheque here, so this is a harness failure
-		w.t.Fatalf("after restart at %s, crediting %v (threshold %v) to %s and paying sent no cheque", where, extra, w.thr, p.Name)
+		// the restored service owes at least `extra` (>= threshold) and does not pay: the traffic
+		// consumed after the restart is forgotten for payment (or the restored cheque amount is
+		// above what was ever sent)
+		w.c.Viol("traffic-consumed-after-restart-never-paid", fmt.Sprintf("after restart at %s, %v (threshold %v) was consumed from %s; paying sent no cheque", where, extra, w.thr, p.Name), w.witness(k, where))
 		return
 	}
 	w.run.Stat("post_restart_cheques", 1)
@@ -679,6 +683,66 @@ func freeHistory(t *testing.T, run *obs.Run, c *obs.Case, i int) {
 	c.End(fmt.Sprintf("free/workers=%d/peers=%d/pays=%d/recvs=%d/stale=%d/order=%08x", workers, len(w.peers), npay, nrecv, stale, h.Sum32()), true)
 }
 
+// twoPhaseHistory: traffic that is settled completely (a cheque for everything consumed, a
+// received cheque for everything served), then a restart of the service (or the 24h refresh)
+// on the same store, then more traffic and payments on the restored service, then the usual
+// restarts at crash points and at quiescence.
+func twoPhaseHistory(t *testing.T, run *obs.Run, c *obs.Case, i int) {
+	rng := c.Rand()
+	w := newWorld(t, run, c, rng, 2+rng.Intn(2))
+	defer w.close()
+	settled := map[int]bool{}
+	for p := range w.peers {
+		switch rng.Intn(4) {
+		case 0: // left with an unpaid balance
+			w.consume(0, p, amount(rng))
+		default:
+			for k := 0; k <= rng.Intn(2); k++ {
+				w.consume(0, p, new(big.Int).Add(amount(rng), w.thr))
+			}
+			w.pay(0, p)
+			settled[p] = true
+		}
+		if rng.Intn(2) == 0 {
+			a := amount(rng)
+			w.serve(0, p, a)
+			if rng.Intn(3) > 0 {
+				w.recv(0, p, a) // the peer pays for everything it was served
+			}
+		}
+	}
+	how := "restart"
+	if rng.Intn(3) == 0 {
+		how = "refresh"
+		if err := w.node.Svc.TrafficInit(); err != nil {
+			t.Fatal(err)
+		}
+	} else {
+		w.node = trafficx.NewNode(w.self, w.ps, w.chain, trafficx.Options{})
+		if err := w.node.Svc.Init(); err != nil {
+			t.Fatal(err)
+		}
+	}
+	w.sched = append(w.sched, "phase 1 (settle), then "+how+", then phase 2 on the restored service")
+	focus := len(w.ps.Writes())
+	n2 := 2 + rng.Intn(5)
+	for k := 0; k < n2; k++ {
+		p := rng.Intn(len(w.peers))
+		switch rng.Intn(4) {
+		case 0:
+			w.serve(0, p, amount(rng))
+		case 1:
+			w.pay(0, p)
+		default:
+			w.consume(0, p, amount(rng))
+		}
+	}
+	run.Stat("two_phase_histories", 1)
+	run.Stat("peers_fully_settled_before_the_restart", int64(len(settled)))
+	w.check(rng, focus, 2)
+	c.End(fmt.Sprintf("twophase/%s/peers=%d/settled=%d/phase2=%d", how, len(w.peers), len(settled), n2), true)
+}
+
 // freshHistory: the peers are known to the persistent address book but the running
 // service has no in-memory record of them yet (the node was restarted since they were
 // met and no traffic was exchanged before). The first updates of each such peer are
@@ -745,6 +809,8 @@ func runSet1(t *testing.T, name string, quick, thorough int, f func(*testing.T, 
 			"restart (new service + Init) on the store contents after EVERY write from the held-back update on, after 2 sampled writes of the prefix, and at quiescence; distinct = kind x overtakers x achieved x prefix/suffix length x stale overwrites seen",
 			"the store wrapper only delays a Put and logs writes; a store in which an earlier-issued Put completes later is an ordinary concurrent store",
 			"restart point k = base contents + first k writes; an operation counts as acknowledged at point k if its call returned before write k+1 began (logical clock)")
+	} else if strings.HasPrefix(name, "twophase") {
+		run.Rule("two phases: per peer, consumed traffic paid by a cheque for the whole total and served traffic paid by a received cheque (some peers left unsettled), then a restart of the service on the same store (1 in 3: the 24h refresh instead), then 2-6 further traffic updates / payments on the restored service; restart after every write of phase 2 and at quiescence, where also the amounts accounted in memory are compared with the running service; distinct = restart kind x peers x settled peers x phase-2 length")
 	} else if strings.HasPrefix(name, "fresh") {
 		run.Rule("fresh peers: 6-15 peers known to the persistent address book but without an in-memory record (service restarted since the handshake, no traffic before); for each peer 2-8 goroutines are released together, each making one traffic update of that peer; restart at 3 sampled crash points and at quiescence; distinct = peers x workers")
 	} else {
@@ -765,13 +831,14 @@ func runSet1(t *testing.T, name string, quick, thorough int, f func(*testing.T, 
 // The race detector supports at most 8128 live goroutines and every traffic.Service
 // leaves two behind (it has no Close), so the work is split over test functions that
 // ./check runs as separate child processes (shards).
-func TestForcedA(t *testing.T) { runSet(t, "forcedA", 60, 250, forcedHistory) }
-func TestForcedB(t *testing.T) { runSet(t, "forcedB", 60, 250, forcedHistory) }
-func TestForcedC(t *testing.T) { runSet(t, "forcedC", 0, 250, forcedHistory) }
-func TestForcedD(t *testing.T) { runSet(t, "forcedD", 0, 250, forcedHistory) }
-func TestFreeA(t *testing.T)   { runSet(t, "freeA", 40, 300, freeHistory) }
-func TestFreeB(t *testing.T)   { runSet(t, "freeB", 40, 300, freeHistory) }
-func TestFreeC(t *testing.T)   { runSet(t, "freeC", 0, 300, freeHistory) }
-func TestFreeD(t *testing.T)   { runSet(t, "freeD", 0, 300, freeHistory) }
-func TestFreshA(t *testing.T)  { runSet(t, "freshA", 40, 300, freshHistory) }
-func TestFreshB(t *testing.T)  { runSet(t, "freshB", 40, 300, freshHistory) }
+func TestForcedA(t *testing.T)   { runSet(t, "forcedA", 60, 250, forcedHistory) }
+func TestForcedB(t *testing.T)   { runSet(t, "forcedB", 60, 250, forcedHistory) }
+func TestForcedC(t *testing.T)   { runSet(t, "forcedC", 0, 250, forcedHistory) }
+func TestForcedD(t *testing.T)   { runSet(t, "forcedD", 0, 250, forcedHistory) }
+func TestFreeA(t *testing.T)     { runSet(t, "freeA", 40, 300, freeHistory) }
+func TestFreeB(t *testing.T)     { runSet(t, "freeB", 40, 300, freeHistory) }
+func TestFreeC(t *testing.T)     { runSet(t, "freeC", 0, 300, freeHistory) }
+func TestFreeD(t *testing.T)     { runSet(t, "freeD", 0, 300, freeHistory) }
+func TestFreshA(t *testing.T)    { runSet(t, "freshA", 40, 300, freshHistory) }
+func TestFreshB(t *testing.T)    { runSet(t, "freshB", 40, 300, freshHistory) }
+func TestTwoPhaseA(t *testing.T) { runSet(t, "twophaseA", 60, 400, twoPhaseHistory) }
